@@ -985,6 +985,7 @@ func (fr *Frame) execLoopCut(l *Loop, in []*Edge) map[*ssa.BasicBlock][]*Edge {
 				nlc.Invariants = append(nlc.Invariants, lc.Invariants...)
 				nlc.Decreases = lc.Decreases
 				nlc.Assigns = lc.Assigns
+				nlc.Latch = lc.Latch
 			}
 			lc = nlc
 			break
@@ -1192,6 +1193,13 @@ func (fr *Frame) execLoopCut(l *Loop, in []*Edge) map[*ssa.BasicBlock][]*Edge {
 			sc, old := fr.invCtx(inv, scope)
 			t := fr.evalGoal(inv.Expr, sc, e.st, old)
 			vc.obligeNamed(fr, fmt.Sprintf("%s/loop%d/inv-preserved/%d@%d", fname, l.ord, i, li), "inv-preserved", t, inv.Tags, inv.Src)
+		}
+		for i, lt := range lc.Latch {
+			if !clauseActive(lt.Tags, vc.w.prop) {
+				continue
+			}
+			t := fr.evalGoal(lt.Expr, scope, e.st, fr.entry)
+			vc.obligeNamed(fr, fmt.Sprintf("%s/loop%d/latch/%d@%d", fname, l.ord, i, li), "latch", t, lt.Tags, lt.Src)
 		}
 		if len(loopLocs) > 0 {
 			for _, k := range sortedKeys(mod) {
